@@ -177,7 +177,8 @@ class Concretiser:
                 v = rng.choice([self.max_bytes + 1, 2 * self.max_bytes, 10 * self.max_bytes, self.max_bytes + 1, 2 ** 31 - 1, 2 ** 31, 2 ** 32 + 1,
                                 2 ** 63 - 1, 2 ** 63, 2 ** 64 - 1, 2 ** 64 + 1, 10 ** 20 - 1])
                 abs_["declared"] = min(v, 2 ** 31 - 1)       # TLC integers are 32 bit: the abstraction only needs "above the limit"
-                params = " SIZE=%d" % v
+                # the oversize declaration alone, ahead of and behind other parameters
+                params = rng.choice([" SIZE=%d", " SIZE=%d", " SIZE=%d BODY=8BITMIME", " BODY=7BIT SIZE=%d", " SIZE=%d AUTH=<>", " AUTH=<> SIZE=%d BODY=8BITMIME"]) % v
             elif k == "sizeok":
                 abs_["declared"] = rng.choice([1, self.max_bytes // 2, self.max_bytes - 1, self.max_bytes])
                 params = rng.choice([" SIZE=%d BODY=8BITMIME", " SIZE=%d", " BODY=7BIT SIZE=%d"]) % abs_["declared"]
@@ -732,7 +733,7 @@ local function answer(a, sep)
   local function has(t) return string.find(a, sep .. t, 1, true) ~= nil end
   if has("gofirst") then return smtp.allow() end
   if has("allow") then return smtp.allow() end
-  if has("denyc") then return smtp.deny(553, "custom text") end
+  if has("denyc") then return smtp.deny(553, "custom text: 100% full; 5%d %s left") end
   if has("deny") then return smtp.deny() end
   if has("defer") then return smtp.defer() end
   if has("nil") then return nil end
@@ -744,14 +745,33 @@ local function answer(a, sep)
   return nil
 end
 
+-- a handler that is going to fail (error, nil, wrong kind of value) first scribbles on what it was given: a handler
+-- that did not answer must not have changed the transaction either
+local function fails(a, sep)
+  for _, t in ipairs({"nil", "num", "str", "tbl", "err", "rterr"}) do
+    if string.find(a, sep .. t, 1, true) ~= nil then return true end
+  end
+  return false
+end
+local function scribble(session)
+  pcall(function()
+    if session.from ~= nil then session.from.address = "SCRIBBLED@EVIL.EXAMPLE" end
+    for i = 1, #session.to do session.to[i].address = "SCRIBBLED" .. i .. "@EVIL.EXAMPLE" end
+  end)
+end
+
 function inbucket.before.mail_from_accepted(session)
   if session.from == nil then return nil end
-  return answer(session.from.address, "h-")
+  local a = session.from.address
+  if fails(a, "h-") then scribble(session) end
+  return answer(a, "h-")
 end
 
 function inbucket.before.rcpt_to_accepted(session)
   local last = session.to[#session.to]
-  return answer(last.address, "+h-")
+  local a = last.address
+  if fails(a, "+h-") then scribble(session) end
+  return answer(a, "+h-")
 end
 
 function inbucket.before.message_stored(msg)
@@ -799,7 +819,7 @@ HOOK_ANSWER = {
     "none": None, "nil": None, "num": None, "str": None, "tbl": None, "err": None, "rterr": None,
     "defer": {"action": "defer"}, "allow": {"action": "allow"},
     "deny": {"action": "deny", "code": 550, "text": "Mail denied by policy"},
-    "denyc": {"action": "deny", "code": 553, "text": "custom text"},
+    "denyc": {"action": "deny", "code": 553, "text": "custom text: 100% full; 5%d %s left"},
     "gofirst": {"action": "deny", "code": 521, "text": "go first"},
     "golast": {"action": "deny", "code": 522, "text": "go last"},
 }
